@@ -223,3 +223,13 @@ func calleeFunc(f *eng.Fn, call *ast.CallExpr) *types.Func {
 	}
 	return nil
 }
+
+// constOf returns the integer value of a constant object.
+func constOf(o types.Object, dst *int64) int64 {
+	if c, ok := o.(*types.Const); ok {
+		if v, ok := constantInt(c); ok {
+			return v
+		}
+	}
+	return 0
+}
